@@ -85,6 +85,11 @@ func (iv *Value) ValueFrom(value any) {
 		iv.ItemValue = vv.ItemValue
 		return
 	}
+	if value == nil {
+		// nothing to take over (reflect.TypeOf(nil) is nil: the array and object cases below
+		// would dereference it)
+		return
+	}
 
 	switch iv.ItemType {
 	case ItemTypeString:
